@@ -70,7 +70,7 @@ func hpackInts(run *Run, ss *shardSet) {
 	r := run.R
 	vals := []uint64{0, 1, 2, 5, 14, 15, 16, 30, 31, 32, 62, 63, 64, 126, 127, 128, 129, 254, 255, 256, 257, 16383, 16384, 1 << 20, 1<<32 - 1, 1 << 32,
 		1<<62 - 1, 1 << 62, 1<<63 - 1, 1 << 63, 1<<63 + 254, 1<<63 + 255, 1<<63 + 256, 1<<64 - 1}
-	for i := 0; i < run.N(60, 150); i++ {
+	for i := 0; i < run.N(30, 150); i++ {
 		if abortRun {
 			return
 		}
